@@ -61,7 +61,9 @@ func VerifC20_RoundTrip() {
 }
 
 // VerifC20_WrongPassphrase: any other passphrase fails with ErrDecrypt (under
-// the ideal-KDF assumption: a different passphrase derives a different MAC key).
+// the ideal-KDF assumption: a different HMAC key derives a different MAC key).
+// Passphrases that differ only in trailing zero bytes are the same HMAC key
+// (PBKDF2-HMAC pads the key with zeros): known-finding class.
 func VerifC20_WrongPassphrase() {
 	c20IdealOn = true
 	key, _, pass, _, blob := c20Encrypted()
@@ -69,6 +71,7 @@ func VerifC20_WrongPassphrase() {
 	if len(other) == len(pass) {
 		vs.Assume(!c20Eq(other, pass))
 	}
+	vs.Known("C20-hmac-zero-padded-passphrase", c20Eq(c20Canon(other), c20Canon(pass)))
 	file := c20Store(blob)
 	got, err := keyStorePassphrase{}.GetKey(key.Address, file, c20Str(other))
 	c20Unstore(file)
